@@ -440,6 +440,47 @@ pub fn generate(s: &mut Session, thorough: bool) -> bool {
                 let _ = std::fs::remove_dir_all(&d2);
             }
         }
+        // ---- a hole in the run (every 3rd run): one file starts exactly 2 s (or more) after the previous
+        // one ended; the files of a run follow each other within 1 s, so a file is missing and the
+        // programs must say so instead of writing a CSV (implementation-only: the check is in the
+        // binaries, not in sort_run_files)
+        if r % 3 == 1 && files.len() >= 2 {
+            let mut bad = files.clone();
+            let k = 1 + rng.below(bad.len() as u64 - 1) as usize;
+            let gap = *rng.pick(&[2u32, 2, 3, 60]);
+            let shift = (bad[k - 1].t1 + gap).wrapping_sub(bad[k].t0);
+            for f in bad.iter_mut().skip(k) {
+                f.t0 = f.t0.wrapping_add(shift);
+                f.t1 = f.t1.wrapping_add(shift);
+            }
+            let d2 = root.join(format!("r{r}gap"));
+            std::fs::create_dir_all(&d2).unwrap();
+            let mut paths = Vec::new();
+            for f in &bad {
+                let p = d2.join(&f.name);
+                write_midas(&p, &file_bytes_endian(f.run, f.t0, f.t1, &f.events, f.big));
+                paths.push(p);
+            }
+            let mut why = None;
+            let mut observed = String::new();
+            for (oi, rev) in [false, true].iter().enumerate() {
+                let mut args = paths.clone();
+                if *rev {
+                    args.reverse();
+                }
+                for bin in ["alpha-g-vertices", "alpha-g-trg-scalers"] {
+                    let res = run_binary(bin, &args, &d2.join("out"), 2);
+                    if res.status_ok || res.csv.is_some() {
+                        why = Some(format!("{bin} did not refuse a run with a {gap} s hole before file {k} [run {}]", describe(&bad)));
+                    }
+                    if oi == 0 && observed.is_empty() {
+                        observed = if res.stderr.contains("missing file") { "err MissingFile".into() } else if res.status_ok { "ok".into() } else { "failed".into() };
+                    }
+                }
+            }
+            s.push_oracle("missing-file", format!("impl-only hole {gap} {} => {observed}", describe(&bad).replace(' ', "_")), observed.clone(), why);
+            let _ = std::fs::remove_dir_all(&d2);
+        }
         let _ = std::fs::remove_dir_all(&dir);
     }
     let _ = std::fs::remove_dir_all(&root);
